@@ -78,7 +78,10 @@ def scripts_for(ctx: Ctx):
 def evaluate(ctx: Ctx, scripts, which, compare_model=True, crypto_of=None, sample=True):
     st = ctx.stats
     impl = run_impl(scripts, crypto_of)
-    model = run_model_parallel(which, [gen.model_line(ops) for ops in scripts], workers=12) if compare_model else [None] * len(scripts)
+    from ref.sysev_world import code_tables
+
+    imm, nul = code_tables()  # the model is configured with the code's own tables; the oracle is not
+    model = run_model_parallel(which, [gen.model_line(ops, imm=imm, nul=nul) for ops in scripts], workers=12) if compare_model else [None] * len(scripts)
     for idx, (ops, r, m) in enumerate(zip(scripts, impl, model)):
         for op in ops:
             st.hit("op", op[0])
